@@ -227,6 +227,12 @@ def call(ex, node, name, st):
             return TupSeqV(v.n, v.comps, name)
         if isinstance(v, SliceSeqV):
             return v
+        if isinstance(v, tuple) and v and v[0] == "range":
+            # tuple(range(a, b, c)) with compile-time bounds: the listed integers
+            vals = [z3.simplify(S.as_int(t)) if not isinstance(t, int) else z3.IntVal(t) for t in v[1:4]]
+            if all(z3.is_int_value(t) for t in vals):
+                lo, hi, stp = (t.as_long() for t in vals)
+                return TupV([E.I(z3.IntVal(i)) for i in range(lo, hi, stp)], name)
         raise E.Unsupported(f"{name}() of {v!r}")
     if name == "product":
         # itertools.product of symbolic sequences: only the single-factor case (a sequence of 1-tuples) is modelled
